@@ -345,10 +345,64 @@ class PostprocMachine(TracedMachine()):
         return labels, len(self.calls) >= 2 and tight_then_loose
 
 
-ENTRIES = {'fitfile': run_fitfile}
+# ------------------------------------------------------------------------------------------ sequences of records
+
+@st.composite
+def seq_cases(draw):
+    nfilt = draw(st.integers(1, 4))
+    nmod = draw(st.integers(2, 8))
+    names = ['model_%04d' % i for i in range(nmod)]
+    wf = draw(st.booleans())
+    nrec = draw(st.integers(1, 4))
+    recs = [draw(fg.record_desc(names, nfilt, with_fluxes=wf, min_fits=2 if i == 0 else 0, name='s%d' % i)) for i in range(nrec)]
+    return {'names': names, 'nfilt': nfilt, 'records': recs,
+            # who owns the objects that are written: fresh objects per record (as fit() makes them), ONE Source object given
+            # new photometry before each fit, or the SAME result written again after a tighter selection
+            'writer': draw(st.sampled_from(['fresh', 'one_source_object', 'same_result_after_keep'])),
+            'keep_n': draw(st.integers(1, 2))}
+
+
+def run_seq(case, ctx):
+    """'all sequences of >= 1 records written then read, compared NaN-aware'"""
+    from sedfitter.fit_info import FitInfoFile
+    names, nfilt = case['names'], case['nfilt']
+    labels = {'writer_' + case['writer'], 'records=%d' % len(case['records'])}
+    with ctx.tempdir() as d:
+        meta = fg.Meta(os.path.join(d, 'models'), [1. + j for j in range(nfilt)], [3.] * nfilt,
+                       {'wav': [0.1, 0.55, 10.], 'chi': [3., 1., 0.1]})
+        path = os.path.join(d, 'seq.fitinfo')
+        with must_succeed('writing a sequence of records'):
+            if case['writer'] == 'one_source_object':
+                snaps = fg.write_fit_file_reusing(path, case['records'], names, meta)
+            else:
+                infos = [fg.build_info(r, names, meta) for r in case['records']]
+                snaps = []
+                fout = FitInfoFile(path, 'w')
+                for i, info in enumerate(infos):
+                    fout.write(info)
+                    snaps.append(fg.snapshot(info))
+                    if i == 0 and case['writer'] == 'same_result_after_keep':
+                        info.keep(('N', case['keep_n']))
+                        fout.write(info)
+                        snaps.append(fg.snapshot(info))
+                fout.close()
+        with must_succeed('reading the records back'):
+            got, _ = fg.read_fit_file(path)
+        if len(got) != len(snaps):
+            fail('%d records written, %d read back' % (len(snaps), len(got)), 'c10:seq_count')
+        for i, (g, sn) in enumerate(zip(got, snaps)):
+            diff = fg.diff_snapshots(fg.snapshot(g), sn)
+            if diff:
+                fail('record %d of %d (%s) read back differs from what was written in %s' % (
+                    i + 1, len(snaps), case['writer'].replace('_', ' '), diff), 'c10:seq_record_differs')
+    return labels, len(snaps) >= 2
+
+
+ENTRIES = {'fitfile': run_fitfile, 'seq': run_seq}
 MACHINES = {'postproc': PostprocMachine}
 
 
 def plan(ctx):
     ctx.run_given('fitfile', fit_cases(dup_names=True), ctx.scale(40, 800), shrink=not ctx.quick)
     ctx.run_machine('postproc', ctx.scale(12, 250), 4, shrink=not ctx.quick)
+    ctx.run_given('seq', seq_cases(), ctx.scale(40, 800))
